@@ -10,8 +10,8 @@
                                                   playing core ([update_position], the per-frame loop, the resampler, the
                                                   transport, [frame_at_index] with slices) is C04's model, used as is;
       playback_state_manager.rs, start_time.rs   C03's model, used as is; parameter.rs / tween.rs: C06's model.
-    The [Decoder] contract (any packetisation, any seek landing) is C18's: a decoder over the frame list [audio]
-    whose packet sizes and seek landings are arbitrary functions.
+    The [Decoder] is any state machine over the frame list [audio]: arbitrary packet sizes INCLUDING EMPTY PACKETS,
+    arbitrary seek landings (C18's contract, which has non-empty packets only, is the special case).
 
     Generic over the time type [T] ([Num]: binary64 or Q), the frame type [A], the interpolation-fraction / amplitude
     type [F] (binary32), the volume type [V] (decibels) and the panning type [P], with all their operations as Section
@@ -25,12 +25,11 @@
 From Coq Require Import ZArith List Bool.
 From KV Require Import Base.Outcome Base.Num C19.Model C06.Model.
 From KV Require Import C04.Transport C04.Resampler C04.StaticData C04.StaticSound.
-From KV Require C03.Model C18.Model.
+From KV Require C03.Model.
 Import ListNotations.
 Local Open Scope Z_scope.
 
 Module P3 := KV.C03.Model.
-Module D18 := KV.C18.Model.
 
 Section Model.
   Context {T : Type} {NT : Num T} {ND : NumDur T}.
@@ -281,24 +280,67 @@ Section Model.
         Ok ({| z_core := y'; z_shell := h' |},
             OOut (gains h 0 len raws) (h_mirror h') (P3.is_stopped (P3.ps (h_psm h'))), starved).
 
-  (** ** the decoder thread: [DecodeScheduler] over a conforming decoder of [audio] *)
+  (** ** the decoder thread: [DecodeScheduler] over a decoder of [audio] *)
   Variable audio : list A.
-  Variables psize land : nat -> nat.      (* packet size at a position, seek landing: ANY functions (C18) *)
+  (** The [Decoder]: ANY state machine.  [dpos d] is the index of the next frame it will decode; [decode] returns an
+      error ([derr d]) or the next packet — [dsize d] frames (as many as the audio still has), possibly NONE: the
+      contract allows empty packets — and moves to [dnext d]; [seek i] moves to [dseek d i] and reports where that is.
+      A decoder CONFORMS ([ProofsDecoder.conforming]) if it never fails before the end of the audio, advances by what
+      it returned, lands at or before the index sought, and returns fewer than [E] empty packets in a row. *)
+  Variable D : Type.
+  Variable dpos : D -> nat.
+  Variable dsize : D -> nat.
+  Variable dnext : D -> D.
+  Variable dseek : D -> nat -> D.
+  Variable derr : D -> bool.
+  Variable d0 : D.                        (* the decoder as handed to [StreamingSoundData::from_decoder] *)
   Variable cap : Z.                       (* BUFFER_SIZE = 16384 *)
+
+  (** [Decoder::decode] *)
+  Definition dec_decode (d : D) : option (list A * D) :=
+    if derr d then None else Some (firstn (dsize d) (skipn (dpos d) audio), dnext d).
+
+  (** the scheduler's view of the decoder: the decoder, decoder_current_frame_index, decoded_chunk *)
+  Record dsched := { ds_dec : D; ds_cur : nat; ds_chunk : option (nat * list A) }.
+  (** [DecodedChunk::frame_at_index] *)
+  Definition chunk_frame (c : option (nat * list A)) (index : nat) : option A :=
+    match c with
+    | None => None
+    | Some (start, frames) => if (index <? start)%nat then None else nth_error frames (index - start)
+    end.
+  (** [loop { decoded_chunk = decode()?; decoder_current_frame_index += len; if the frame is in it, return it }]:
+      an empty chunk is stored like any other and the loop goes round again *)
+  Fixpoint decode_loop (fl : nat) (s : dsched) (index : nat) : outcome (option A * dsched) :=
+    match fl with
+    | O => Hang
+    | S fl' =>
+        match dec_decode (ds_dec s) with
+        | None => Ok (None, s)                  (* decoder error: propagated with [?] *)
+        | Some (frames, d') =>
+            let s' := {| ds_dec := d'; ds_cur := (ds_cur s + length frames)%nat; ds_chunk := Some (ds_cur s, frames) |} in
+            match chunk_frame (ds_chunk s') index with
+            | Some fr => Ok (Some fr, s')
+            | None => decode_loop fl' s' index
+            end
+        end
+    end.
+  (** [decoder_current_frame_index = decoder.seek(index)?] *)
+  Definition sched_seek (s : dsched) (index : nat) : dsched :=
+    let d := dseek (ds_dec s) index in {| ds_dec := d; ds_cur := dpos d; ds_chunk := ds_chunk s |}.
 
   Inductive pstatus := Running | Ended.
   Record producer := {
     q_status : pstatus;
-    q_dec : @D18.sched A;                 (* the decoder, decoder_current_frame_index, decoded_chunk *)
+    q_dec : dsched;
     q_slice : option (Z * Z);
     q_n : Z;                              (* num_frames *)
     q_tr : transport;
   }.
-  Definition q_with (q : producer) (st : pstatus) (dec : @D18.sched A) (t : transport) : producer :=
+  Definition q_with (q : producer) (st : pstatus) (dec : dsched) (t : transport) : producer :=
     {| q_status := st; q_dec := dec; q_slice := q_slice q; q_n := q_n q; q_tr := t |}.
 
   (** [DecodeScheduler::frame_at_index]; [None] in the result = the decoder returned an error *)
-  Definition q_frame_at_index (q : producer) (index : Z) : outcome (option A * @D18.sched A) :=
+  Definition q_frame_at_index (q : producer) (index : Z) : outcome (option A * dsched) :=
     let dec := q_dec q in
     let start := match q_slice q with Some (st, _) => st | None => 0 end in
     let en := match q_slice q with Some (_, e) => e | None => q_n q end in
@@ -307,14 +349,11 @@ Section Model.
     else
       let! index := add_chk start index in
       let i := Z.to_nat index in
-      match D18.chunk_frame (D18.chunk dec) i with
+      match chunk_frame (ds_chunk dec) i with
       | Some fr => Ok (Some fr, dec)
       | None =>
-          let dec1 := if (i <? D18.cur dec)%nat
-                      then let j := D18.dec_seek land i in
-                           {| D18.dpos := j; D18.cur := j; D18.chunk := D18.chunk dec |}
-                      else dec in
-          D18.decode_loop audio psize fuel dec1 i
+          let dec1 := if (i <? ds_cur dec)%nat then sched_seek dec i else dec in
+          decode_loop fuel dec1 i
       end.
 
   (** the system: the sound on the audio thread, the scheduler on the decoder thread *)
@@ -328,10 +367,10 @@ Section Model.
               | None => Ok (Z.of_nat (length audio))
               end in
     let start_position := into_samples (g_start_pos g) sr in
-    let j := D18.dec_seek land (Z.to_nat start_position) in
+    let d := dseek d0 (Z.to_nat start_position) in
     let lr := option_map (fun r => region_samples r sr n) (g_loop g) in
     let t := transport_new start_position lr false n in
-    let q := {| q_status := Running; q_dec := {| D18.dpos := j; D18.cur := j; D18.chunk := None |};
+    let q := {| q_status := Running; q_dec := {| ds_dec := d; ds_cur := dpos d; ds_chunk := None |};
                 q_slice := slice; q_n := n; q_tr := t |} in
     let current_frame := t_pos t in
     let y := {| y_sr := sr; y_ring := [(azero, 0)]; y_reached_end := false; y_err := false;
@@ -434,9 +473,13 @@ Arguments y_cur {T A}. Arguments y_fpos {T A}. Arguments y_pos {T A}. Arguments 
 Arguments stream_sound : clear implicits.
 Arguments Build_stream_sound {T A V P}.
 Arguments z_core {T A V P}. Arguments z_shell {T A V P}.
+Arguments dsched : clear implicits.
+Arguments Build_dsched {A D}.
+Arguments ds_dec {A D}. Arguments ds_cur {A D}. Arguments ds_chunk {A D}.
+Arguments chunk_frame {A}.
 Arguments producer : clear implicits.
-Arguments Build_producer {A}.
-Arguments q_status {A}. Arguments q_dec {A}. Arguments q_slice {A}. Arguments q_n {A}. Arguments q_tr {A}.
+Arguments Build_producer {A D}.
+Arguments q_status {A D}. Arguments q_dec {A D}. Arguments q_slice {A D}. Arguments q_n {A D}. Arguments q_tr {A D}.
 Arguments stream : clear implicits.
-Arguments Build_stream {T A V P}.
-Arguments w_prod {T A V P}. Arguments w_sound {T A V P}.
+Arguments Build_stream {T A V P D}.
+Arguments w_prod {T A V P D}. Arguments w_sound {T A V P D}.
